@@ -180,6 +180,9 @@ func c15Run(c *Ctx, cs c15Case, count bool) {
 	switch cs.Variant {
 	case "dst-no-nesting":
 		dstNative.SetNoNesting(true)
+	case "dst-validity-rejects":
+		// a validity policy of the destination that currently says no: Transfer does not ask it
+		dstNative.SetValidityPolicy(func(...any) error { return errCat })
 	case "dst-push-policy":
 		dstNative.SetPushPolicy(func(x ...any) error {
 			if s, ok := x[0].(string); ok && strings.HasSuffix(s, "1") {
@@ -392,6 +395,8 @@ func c15Cases(c *Ctx) []c15Case {
 											}
 											x := c15Case{sl, sm, sf, sc, "LIST", dl, dm, dc, form, "AND", false, false, false, "", true}
 											out = append(out, x)
+											y := c15Case{sl, sm, sf, sc, "LIST", dl, dm, dc, form, "AND", false, false, false, "dst-validity-rejects", false}
+											out = append(out, y)
 										}
 										if dm == (1<<dl)-1 && sm == (1<<sl)-1 && (form == "native" || form == "alias" || form == "read-only" || form == "int") {
 											out = append(out, c15Case{sl, sm, sf, sc, "LIST", dl, dm, dc, form, "AND", true, true, false, "", false}, c15Case{sl, sm, sf, sc, "LIST", dl, dm, dc, form, "AND", true, false, false, "", false}, c15Case{sl, sm, sf, sc, "LIST", dl, dm, dc, form, "AND", false, true, true, "", false})
